@@ -341,3 +341,48 @@ def rejected_then_short(r):
                 out.append(bytes(bad) + gap + f + rand_bytes(r, 5).replace(b"\xd3", b"\x21"))
                 out.append(b"\x7f" + bytes(bad) + gap + f + f)
     return out
+
+
+def preamble_neighbours(r):
+    """bytes one bit (or one unit) away from the preamble value directly before / after a 0xD3 near the END of the
+    buffer, at every alignment (word-at-a-time searches have false positives next to the searched byte; a candidate in
+    the last 5 bytes is pending, not rejected)"""
+    out = []
+    for nb in (0xD2, 0xD4, 0x53, 0xD1, 0xF3, 0x93):
+        for align in range(0, 17):
+            for tail in range(0, 5):
+                fill = bytes(r.choice([0x00, 0x11, 0xFF, 0x7E]) for _ in range(align))
+                out.append(fill + bytes([nb, 0xD3]) + rand_bytes(r, tail).replace(b"\xd3", b"\x01"))
+                if align % 4 == 0:
+                    out.append(fill + bytes([nb, nb, 0xD3, nb]) + rand_bytes(r, tail).replace(b"\xd3", b"\x01"))
+    return out
+
+
+def nul_descriptor_frames(r):
+    """CRC-valid 1007 / 1008 / 1033 frames whose descriptor strings contain NUL bytes (no value built through the
+    public API holds one; a decoder may store it raw)"""
+    def bits(v, n):
+        return [(v >> (n - 1 - i)) & 1 for i in range(n)]
+    def pack(b):
+        while len(b) % 8:
+            b.append(0)
+        return bytes(int("".join(map(str, b[i:i + 8])), 2) for i in range(0, len(b), 8))
+    out = []
+    for n in (1, 2, 7, 8, 9, 16, 31):
+        for where in ("first", "last", "middle", "all"):
+            body = bytearray(r.choice(b"ABCDEFGHXYZ0123456789") for _ in range(n))
+            idx = {"first": [0], "last": [n - 1], "middle": [n // 2], "all": list(range(n))}[where]
+            for i in idx:
+                body[i] = 0
+            for num in (1007, 1008, 1033):
+                b = bits(num, 12) + bits(r.randrange(4096), 12) + bits(n, 8)
+                for ch in body:
+                    b += bits(ch, 8)
+                b += bits(r.randrange(256), 8)                      # setup id
+                if num != 1007:
+                    b += bits(3, 8) + bits(0x53, 8) + bits(0x4E, 8) + bits(0x31, 8)       # a serial number
+                if num == 1033:
+                    for _ in range(3):
+                        b += bits(2, 8) + bits(0x52, 8) + bits(0x58, 8)
+                out.append(mk_frame(pack(b)))
+    return out
